@@ -201,8 +201,8 @@ class Grid(object):
         pixeltype = re.sub("nsignedint$|^signed|nt|loat", "",
                            config["pixeltype"])
         nbits = config["nbits"]//8
-        config["dtype"] = np.dtype(byteorder +
-                                   pixeltype + str(nbits)).type
+        filedtype = np.dtype(byteorder + pixeltype + str(nbits))
+        config["dtype"] = filedtype.type
 
         # Check cell size / dimensions
         if "xdim" in config:
@@ -235,7 +235,7 @@ class Grid(object):
         # Reads data if bil file is there
         if stream_data is not None:
             stream_data.seek(0)
-            grid.load(stream_data)
+            grid.load(stream_data, filedtype)
 
         # Adds parent meta data
         if len(parent_config) > 0:
@@ -497,7 +497,7 @@ class Grid(object):
 
         return identical
 
-    def load(self, stream_data):
+    def load(self, stream_data, filedtype=None):
         """ Load data from file
 
         Parameters
@@ -505,8 +505,13 @@ class Grid(object):
         stream_data : io.ByteIO or str
             Stream to binary data (only BIL file format at the moment) or
             File path.
+        filedtype : numpy.dtype
+            Data type of the file content (including byte order).
+            Grid dtype if None.
         """
-        data = np.fromfile(stream_data, self.dtype)
+        if filedtype is None:
+            filedtype = self.dtype
+        data = np.fromfile(stream_data, filedtype)
 
         nval = self.nrows * self.ncols
         if len(data) != nval:
